@@ -234,7 +234,7 @@ func solverErrClass(err error) *string {
 /* ---------- solver scripts ---------- */
 
 type JOp struct {
-	K     string   `json:"k"` // load | act | fwd | rec | relax | flush
+	K     string   `json:"k"` // load | act | fwd | rec | relax | flush | depth (standard Network only; N = cap, 0 = MaxActivationDepth())
 	Xs    []uint64 `json:"xs,omitempty"`
 	N     int      `json:"n"`
 	Delta uint64   `json:"delta"`
@@ -248,6 +248,36 @@ type JStep struct {
 	Outs  []uint64     `json:"outs"`
 	State []JNodeState `json:"state,omitempty"`
 	Fast  *JFastState  `json:"fast,omitempty"`
+	Depth *JDepthAns   `json:"depth,omitempty"` // answer of a depth query (op kind "depth")
+}
+
+// JDepthAns is what MaxActivationDepth / MaxActivationDepthWithCap returned
+type JDepthAns struct {
+	D int    `json:"d"`
+	E string `json:"e"` // ok | exceeded | modular | other:<msg>
+}
+
+// applyDepth runs the depth query of a history on the standard network: cap 0 = MaxActivationDepth(), any other cap
+// (negative ones too) = MaxActivationDepthWithCap(cap)
+func applyDepth(n *network.Network, cap int) *JDepthAns {
+	var d int
+	var err error
+	if cap == 0 {
+		d, err = n.MaxActivationDepth()
+	} else {
+		d, err = n.MaxActivationDepthWithCap(cap)
+	}
+	a := &JDepthAns{D: d, E: "ok"}
+	switch {
+	case err == nil:
+	case errors.Is(err, network.ErrMaximalNetDepthExceeded):
+		a.E = "exceeded"
+	case strings.HasPrefix(err.Error(), "unsupported for modular"):
+		a.E = "modular"
+	default:
+		a.E = "other:" + err.Error()
+	}
+	return a
 }
 
 // applyOp runs one Solver-interface call, converting a run-time panic into the error class "panic"
@@ -309,11 +339,18 @@ func runScript(s network.Solver, std *network.Network, ops []*JOp, nan *bool) []
 	steps := []JStep{}
 	infBefore := false
 	for _, op := range ops {
-		if infBefore && op.K != "load" && op.K != "flush" {
+		if infBefore && op.K != "load" && op.K != "flush" && op.K != "depth" {
 			*nan = true
 		}
-		res, err := applyOp(s, op)
-		st := JStep{Res: res, Err: solverErrClass(err), Outs: bitsOf(s.ReadOutputs())}
+		var st JStep
+		if op.K == "depth" {
+			// a depth query between the solver calls: reads and writes nothing but the visited marks (dumped below)
+			a := applyDepth(std, op.N)
+			st = JStep{Res: a.E == "ok", Outs: bitsOf(s.ReadOutputs()), Depth: a}
+		} else {
+			res, err := applyOp(s, op)
+			st = JStep{Res: res, Err: solverErrClass(err), Outs: bitsOf(s.ReadOutputs())}
+		}
 		if std != nil {
 			st.State = dumpStdState(std)
 			for _, x := range st.State {
@@ -679,6 +716,52 @@ func genOps(g *G, sp *netSpec, fast bool, k int, allowFlush bool) []*JOp {
 	return ops
 }
 
+// insertAt puts op at position i of ops
+func insertAt(ops []*JOp, i int, op *JOp) []*JOp {
+	r := append([]*JOp{}, ops[:i]...)
+	r = append(r, op)
+	return append(r, ops[i:]...)
+}
+
+// addDepthQueries puts depth queries (MaxActivationDepth / MaxActivationDepthWithCap) into the history before the
+// flush and into the sequence after it (standard Network only). Caps: 0 (uncapped), negative, and small positive ones
+// below / at / above the true depth d of the network (taken from a separate instance). A shaped quarter of the deep
+// networks gets the usage pattern "capped query that hits the cap ... Flush; LoadSensors; RecursiveSteps".
+func addDepthQueries(g *G, sp *netSpec, hist, seq []*JOp) ([]*JOp, []*JOp) {
+	d, err := sp.build().MaxActivationDepth()
+	if err != nil {
+		d = 1
+	}
+	pickCap := func() int {
+		switch c := g.intn(10); {
+		case c < 2:
+			return 0
+		case c == 2:
+			return -1 - g.intn(2)
+		case c < 6 && d >= 2:
+			return 1 + g.intn(d-1) // below the depth: the cap is hit
+		case c < 8:
+			return d
+		default:
+			return d + 1 + g.intn(2)
+		}
+	}
+	switch c := g.intn(8); {
+	case c < 3: // no depth query: the histories of before
+	case c < 5 && d >= 2:
+		hist = insertAt(hist, g.intn(len(hist)+1), &JOp{K: "depth", N: 1 + g.intn(d-1)})
+		seq = append([]*JOp{genLoad(g, sp, false), {K: "rec"}}, seq...)
+	default:
+		for k := g.intn(3); k > 0; k-- {
+			hist = insertAt(hist, g.intn(len(hist)+1), &JOp{K: "depth", N: pickCap()})
+		}
+		for k := g.intn(3); k > 0; k-- {
+			seq = insertAt(seq, g.intn(len(seq)+1), &JOp{K: "depth", N: pickCap()})
+		}
+	}
+	return hist, seq
+}
+
 /* ---------- flushRun ---------- */
 
 type flushRunIn struct {
@@ -710,6 +793,10 @@ func opFlushRun(g *G) (interface{}, []uint64, int, interface{}) {
 	}
 	in.History = genOps(g, sp, fast, hLen, true)
 	in.Seq = genOps(g, sp, fast, 1+g.intn(8), g.chance(0.3))
+
+	if !fast {
+		in.History, in.Seq = addDepthQueries(g, sp, in.History, in.Seq)
+	}
 
 	netA, netB := sp.build(), sp.build()
 	in.Net = dumpNet(netA)
